@@ -762,6 +762,9 @@ func liveGoroutines(p *liveProc) (stacks string, mempoolFlood bool) {
 // with such transactions are generated only while this signature is a listed open finding.
 const liveStormSig = "live-tx-rebroadcast-storm-starves-consensus"
 
+// liveC06Key is the open finding of property C06 that a restart scenario of this leg can run into.
+const liveC06Key = "recovery-panics@App-block-height--is-higher-than-core-"
+
 const (
 	liveStallWall  = 30 * time.Second // a node below the target stored no block for this long ...
 	liveStallTicks = 80               // ... while it was scheduled for this many of its own 250 ms heartbeats (20 s)
@@ -869,6 +872,13 @@ func runLive(c LiveCase, x *h.Ctx) {
 			}
 		}
 		msg, site := liveDeath(lines)
+		if p.runs > 1 && strings.Contains(msg, "App block height") && strings.Contains(msg, "is higher than core") && h.IsKnownFor("C06", liveC06Key) {
+			// the SIGKILL fell between the application's commit and State.Save of a height: the listed
+			// open finding of C06 (crash-atomic commit), which this leg cannot steer around because the
+			// kill point within a commit is a matter of timing. Counted, not judged again here.
+			x.Label("excluded:C06:" + liveC06Key)
+			return true
+		}
 		code := -1
 		if p.cmd != nil && p.cmd.ProcessState != nil {
 			code = p.cmd.ProcessState.ExitCode()
